@@ -43,6 +43,8 @@ class PathReverser(Transform[Path, Path]):
     def __call__(self, x: Path) -> Path:
         x[0].type, x[-1].type = x[-1].type, x[0].type
         t = self.to_tree(x)
-        t = redirect_tree(t, x[-1].id)
+        # the tree built from the path is numbered 0..n-1 along the path,
+        # whatever ids its nodes have in the tree the path was taken from
+        t = redirect_tree(t, len(x) - 1)
         p = t.get_paths()[0]
         return p
